@@ -12,8 +12,8 @@ func init() {
 	registerProperty(&PropertyInfo{
 		ID:    "C01",
 		Title: "Batches apply atomically and exactly as the abstract index says",
-		Rules: []string{"C01.R1", "C01.R2", "C01.R3", "C06.R1", "C06.R2", "C06.R5", "C04.R2"},
-		Decides: "shape conditions without which some history necessarily diverges from the abstract index: Update records both the id and the document, Delete only the id, Insert only the document, and the public Writer methods reach index.Writer.Batch through exactly these mutators; every segmentSnapshot literal that carries a segment of the current root over into a new root carries that root element's deleted set along (directly, or OR-ed with the new obsoletions; a nil deleted set only behind the IsEmpty test or on the edge where the old set is nil); no field or element of a Snapshot / segmentSnapshot is written unless the object was allocated in the same function (or is owned by such an object) and has not been published yet.",
+		Rules: []string{"C01.R1", "C01.R2", "C01.R3", "C01.R4", "C06.R1", "C06.R2", "C06.R5", "C04.R2"},
+		Decides: "shape conditions without which some history necessarily diverges from the abstract index: Update records both the id and the document, Delete only the id, Insert only the document, and the public Writer methods reach index.Writer.Batch through exactly these mutators; every segmentSnapshot literal that carries a segment of the current root over into a new root carries that root element's deleted set along (directly, or OR-ed with the new obsoletions; a nil deleted set only behind the IsEmpty test or on the edge where the old set is nil); no field or element of a Snapshot / segmentSnapshot is written unless the object was allocated in the same function (or is owned by such an object) and has not been published yet; a field value that may be stored is handed to an analyzer only as a fresh copy (in-place token filters would otherwise rewrite the stored bytes).",
 		NotCovered: "that DocsMatchingTerms and the segment library compute the right document sets; counts and stored bytes; behaviour for a batch naming the same id twice.",
 	})
 	registerRule(&RuleInfo{ID: "C01.R1", Title: "Update = delete + insert, Delete = delete, Insert = insert", Floor: 7, Run: ruleC01R1,
@@ -206,6 +206,12 @@ func ruleC01R2(c *Ctx) {
 					})
 					if allNil && fromSnapshotElem {
 						class = "merged-for-persist equivalent"
+					} else if fromSnapshotElem {
+						// a segment taken from an element of another snapshot under a new id: the equivalent of the
+						// snapshot being persisted. The merge already dropped what was deleted at that epoch; a deleted
+						// set taken from anywhere else belongs to a later root
+						c.Violate(key+" [merged-for-persist equivalent]", pos, "the stand-in for the merged segments in the snapshot being persisted carries a deleted set: the file written for that epoch then contains deletions of later batches without their insertions (not a prefix of the batch order)")
+						return
 					} else {
 						c.Undecided(key, pos, "cannot classify the origin of this segmentSnapshot literal")
 						return
